@@ -206,6 +206,7 @@ def real_cases(rng, quick):
     cases = []
 
     def add(W, H, n, **kw):
+        anchor = kw.pop("anchor", None)
         c = dict(W=W, H=H, subs=random_decomp(rng, W, H, n, kw.pop("border", 25), big=kw.pop("big", True)),
                  agree=kw.pop("agree", rng.random() < 0.7),
                  r1=rng.randint(-600, 2 * W + 600), r2=rng.randint(-600, 2 * H + 600),
@@ -214,6 +215,10 @@ def real_cases(rng, quick):
                  crval=rng.choice([(10.0, 20.0), (283.25, -45.5), (0.5, 88.0)]),
                  dtype=rng.choice(["f4", "f4", "f8"]), seed=rng.randrange(1 << 30), tag=kw.pop("tag", "seeded"))
         c.update(kw)
+        if anchor is None and rng.random() < 0.3:
+            anchor = rng.randrange(16)
+        if anchor is not None:
+            anchor_reference(c, anchor)
         c.setdefault("blank", BLANKS[len(cases) % len(BLANKS)])
         c.setdefault("extreme", len(cases) % 2 == 0)
         cases.append(c)
@@ -259,6 +264,10 @@ def real_cases(rng, quick):
             strip = sub(0, rng.randint(0, 40), band + 10, H - 60, **thin)
         add(W, H, 2, tag="asym-band")
         cases[-1]["subs"] = [frame, strip]
+    # the reference pixel on an edge of an input (CRPIX exactly 1, 0, width, width + 1 in x and / or y): all 16 combinations
+    # over a few small mosaics, three inputs each so that every input order is run
+    for a in ([0, 5, 10, 15, 2, 8] if quick else range(16)):
+        add(rng.randint(150, 420), rng.randint(150, 420), 3, tag="ref-on-edge", anchor=a, border=10)
     # grids rotated by exactly 0, +-90, 180 and 45 degrees (matrix elements that are exactly 0 or equal), written as a CD
     # matrix and as PC + CDELT; one tile and several tiles
     for i, rot in enumerate(["0", "90", "-90", "180", "45"]):
@@ -269,6 +278,20 @@ def real_cases(rng, quick):
         add(2049, 300, 3, tag="wide-l4")
         add(1500, 1300, 5, tag="big")
     return cases
+
+
+def anchor_reference(c, a):
+    """Put the common grid's reference pixel on an edge of one input, so that this input's CRPIX1 (or CRPIX2, counted from
+    the top) is exactly 1, 0, its width or its width + 1: its extents relative to the reference pixel are then exactly 0.0
+    (or +-1) at some point of the accumulation of the global extents, whatever the input order."""
+    ix, iy = a % 4, (a // 4) % 4
+    s = c["subs"][0 if a % 3 == 0 else (a % len(c["subs"]))]       # often the first sub-image (frequently the leftmost / topmost)
+    left = min(c["subs"], key=lambda t: t["ox"])
+    top = min(c["subs"], key=lambda t: t["oy"])
+    sx = left if a % 2 == 0 else s
+    sy = top if a % 2 == 1 else s
+    c["r1"] = [2 * sx["ox"] + 2, 2 * sx["ox"], 2 * (sx["ox"] + sx["w"]), 2 * (sx["ox"] + sx["w"]) + 2][ix]
+    c["r2"] = [2 * sy["oy"] + 2, 2 * sy["oy"], 2 * (sy["oy"] + sy["h"]), 2 * (sy["oy"] + sy["h"]) + 2][iy]
 
 
 def file_records(case, perm, pars):
